@@ -2,4 +2,4 @@
 # try_new_seeds.sh <round dir> <Cnn-mK as Cnn/mK> ...: confirm + run own check + keep under seeded/<Cnn>-r3<mK>
 cd "$(dirname "$0")/.."
 rd=$1; shift
-printf '%s\n' "$@" | xargs -P ${PAR:-6} -I{} bash -c 's={}; p=${s%%/*}; m=${s#*/}; tools/try_seed.sh '$rd'/$s $p > '$rd'/$p/$m.try 2>&1; tools/keep_seed.py '$rd'/$s ${p}-r3${m}; grep -E "SEED|check" '$rd'/$p/$m.try | cut -c1-300'
+printf '%s\n' "$@" | xargs -P ${PAR:-6} -I{} bash -c 's={}; p=${s%%/*}; m=${s#*/}; tools/try_seed.sh '$rd'/$s $p > '$rd'/$p/$m.try 2>&1; tools/keep_seed.py '$rd'/$s ${p}-${TAG:-r3}${m}; grep -E "SEED|check" '$rd'/$p/$m.try | cut -c1-300'
